@@ -69,7 +69,9 @@ impl ResolvedCalendarFields {
 
 fn resolve_day(day: Option<u8>, is_year_month: bool) -> TemporalResult<u8> {
     if is_year_month {
-        Ok(day.unwrap_or(1))
+        // CalendarYearMonthFromFields sets the day to 1 whatever the fields contain, so that
+        // every year-month carries the same (canonical) reference day.
+        Ok(1)
     } else {
         day.ok_or(TemporalError::r#type().with_message("Required day field is empty."))
     }
